@@ -499,7 +499,14 @@ func regOne(obj *schemabuilder.Object, f *xField, batchy bool, one, many interfa
 }
 
 func buildXSchema() *graphql.Schema {
-	xSchemaOnce.Do(func() {
+	xSchemaOnce.Do(func() { xSchema = newXSchema() })
+	return xSchema
+}
+
+// newXSchema builds a fresh copy of the tie schema.
+func newXSchema() *graphql.Schema {
+	var out *graphql.Schema
+	func() {
 		sb := schemabuilder.NewSchema()
 		a := sb.Object("XA", XA{})
 		a.Key("id")
@@ -546,9 +553,9 @@ func buildXSchema() *graphql.Schema {
 			}
 		}
 		sb.Mutation()
-		xSchema = sb.MustBuild()
-	})
-	return xSchema
+		out = sb.MustBuild()
+	}()
+	return out
 }
 
 type xRootKey struct{}
@@ -749,6 +756,7 @@ type xDirs struct {
 
 type xSel struct {
 	Alias string
+	Raw   string  // a field name that is not in the schema (ill-formed queries only)
 	Field *xField // nil for __typename
 	Dirs  xDirs
 	Sub   *xSelSet
@@ -923,11 +931,18 @@ func (g *xQGen) frag(on string, depth int) *xFrag {
 func (ss *xSelSet) render(b *strings.Builder) {
 	b.WriteString("{ ")
 	for _, s := range ss.Sels {
+		if s.Raw != "" {
+			b.WriteString(s.Raw + s.Dirs.text + " ")
+			continue
+		}
 		if s.Field == nil {
 			if s.Alias != "__typename" {
 				b.WriteString(s.Alias + ": ")
 			}
 			b.WriteString("__typename" + s.Dirs.text + " ")
+			if s.Sub != nil {
+				s.Sub.render(b)
+			}
 			continue
 		}
 		if s.Alias != s.Field.Name {
@@ -1011,6 +1026,9 @@ func (q *xQuery) enc(ss *xSelSet) interface{} {
 		if s.Field != nil {
 			name = s.Field.ID
 		}
+		if s.Raw != "" {
+			name = 99999
+		}
 		var sub interface{}
 		if s.Sub != nil {
 			sub = q.enc(s.Sub)
@@ -1063,6 +1081,9 @@ func (q *xQuery) jEnc(v interface{}) interface{} {
 	case string:
 		if id, ok := xTypeID[strings.TrimPrefix(v, "X")]; ok && strings.HasPrefix(v, "X") {
 			return map[string]interface{}{"s": id}
+		}
+		if v == "Query" {
+			return map[string]interface{}{"s": xTypeID["Q"]}
 		}
 		return map[string]interface{}{"str": v}
 	case bool:
